@@ -58,6 +58,7 @@ func (w *witness) less(o *witness) bool {
 
 // result of the search from one (type, value, configuration)
 type result struct {
+	cfgIdx           int
 	kind, label, cfg string
 	canon, canonHash []byte
 	states           int64 // kept states (accepted, same content), incl. the initial one
@@ -231,16 +232,16 @@ func main() {
 			{"SizeCheckUnmarshalizer(gogo,10)", marshal.NewSizeCheckUnmarshalizer(gogo, 10), dMain},
 			// configuration variants: SizeCheckDelta = 0 leaves the plain marshalizer in place
 			// (interceptorscontainer factories), MaxUint32 is what the export/import tool uses
-			{"gogo (SizeCheckDelta=0)", gogo, dMain - 1},
-			{"SizeCheckUnmarshalizer(gogo,MaxUint32)", marshal.NewSizeCheckUnmarshalizer(gogo, math.MaxUint32), dMain - 1},
+			{"gogo (SizeCheckDelta=0)", gogo, dMain},
+			{"SizeCheckUnmarshalizer(gogo,MaxUint32)", marshal.NewSizeCheckUnmarshalizer(gogo, math.MaxUint32), dMain},
 		}
 		c.Rule = fmt.Sprintf("states = byte strings; initial = canonical gogo-proto encodings of 3 really signed values (sparse/typical/rich) of each of "+
 			"{shard header, meta header, miniblock, transaction, unsigned tx, reward tx}; transitions (top-level fields) = swap two adjacent fields | "+
 			"append unknown field {max+1,1000}x{varint,fixed64,bytes} | widen one tag/length/value varint by a redundant continuation byte | "+
 			"emit explicit zero/empty for an absent singular field | duplicate a singular field | big.Int payload with a leading zero byte or the other sign byte for nil/0; "+
 			"a state is kept iff the real NewIntercepted* constructor accepts it, its decoded struct Equal()s the initial value and CheckValidity()==nil "+
-			"(real ed25519 / BLS signature verification); dedup by bytes; depth %d with SizeCheckDelta=10, depth %d with delta 0 and MaxUint32. "+
-			"Oracle: Hash()==Hash(canonical). Non-trivial = kept non-canonical encoding (per type x feature set)", dMain, dMain-1)
+			"(real ed25519 / BLS signature verification); dedup by bytes; depth %d for each marshalizer configuration SizeCheckDelta in {10 (production), 0, MaxUint32}. "+
+			"Oracle: Hash()==Hash(canonical). Non-trivial = kept non-canonical encoding (per type x feature set)", dMain)
 		c.Assumptions = []string{
 			"'accepted as valid' = constructor returns nil error and CheckValidity() returns nil; 'same content' = generated Equal of the decoded structs",
 			"rewrites touch top-level fields only (payloads of nested messages are opaque), so non-canonical encodings inside nested messages are not enumerated",
@@ -278,6 +279,11 @@ func main() {
 			if p := mc.Try(func() { r = search(c, j.k, j.vi, j.cf) }); p != "" {
 				r = &result{kind: j.k.name, label: j.k.labels[j.vi], cfg: j.cf.name, selfErr: p}
 			}
+			for ci := range cfgs {
+				if cfgs[ci].name == j.cf.name {
+					r.cfgIdx = ci
+				}
+			}
 			results[i] = r
 		})
 		// deterministic merge
@@ -290,8 +296,8 @@ func main() {
 			if ra.kind != rb.kind {
 				return ra.kind < rb.kind
 			}
-			if ra.cfg != rb.cfg {
-				return ra.cfg > rb.cfg // "SizeCheck...10" first
+			if ra.cfgIdx != rb.cfgIdx {
+				return ra.cfgIdx < rb.cfgIdx // production configuration first
 			}
 			return ra.label < rb.label
 		})
@@ -370,7 +376,7 @@ func main() {
 			}
 			c.ViolationR(sig, b.w.depth, detail, replayCase{b.r.kind, b.r.label, b.r.cfg, hex.EncodeToString(b.w.buf)})
 		}
-		c.Bound = fmt.Sprintf("all rewrite sequences of length <= %d (SizeCheckDelta=10) / <= %d (delta 0, MaxUint32) from 18 initial encodings", dMain, dMain-1)
+		c.Bound = fmt.Sprintf("all rewrite sequences of length <= %d from 18 initial encodings x 3 marshalizer configurations", dMain)
 	})
 }
 
